@@ -21,6 +21,8 @@ import (
 	"strconv"
 	"strings"
 	"sync"
+	"testing"
+	"time"
 
 	"github.com/daeuniverse/dae/common/assets"
 	"github.com/daeuniverse/dae/common/consts"
@@ -32,6 +34,17 @@ import (
 	"google.golang.org/protobuf/proto"
 	"pgregory.net/rapid"
 )
+
+// vrBudget returns a function that reports whether the wall-clock budget of the test
+// binary (-test.timeout) is nearly used up. A property that sees true returns at once
+// (the case is not counted), so a slow, busy machine ends a run as "explored so far"
+// instead of a harness timeout. It never influences a verdict.
+func vrBudget(t *testing.T) func() bool {
+	deadline, ok := t.Deadline()
+	return func() bool {
+		return ok && time.Until(deadline) < 150*time.Second
+	}
+}
 
 // ---------------------------------------------------------------------------------
 // Model of a written program
